@@ -31,7 +31,7 @@ ASSUMPTIONS = [
     "protocol callbacks may raise in these situations (e.g. ACK for a DATA frame that follows an ERROR frame in the same read: transport already closed); the transport contract turns that into a harmless second connection_lost; counted as a probe",
     "bound for calls in progress: 10 s command timeout + 16 s (five ACK timeouts of at most 3.2 s) + 0.5 s slack after the injection",
 ]
-PROBES = ["faulty_link_before_injection", "threaded.runs", "threaded.preempted_in_proxy", "kind.error", "kind.rstack", "kind.silent", "kind.lost", "kind.eof", "kind.close", "workload.idle", "workload.one", "workload.queued",
+PROBES = ["faulty_link_before_injection", "failure_frame_destroyed_by_line", "threaded.runs", "threaded.preempted_in_proxy", "kind.error", "kind.rstack", "kind.silent", "kind.lost", "kind.eof", "kind.close", "workload.idle", "workload.one", "workload.queued",
           "workload.reset", "workload.startup", "reported", "reported_twice", "silent_detected_by_retries", "silent_during_reset_timeout",
           "data_received_raised", "inject_at_timer_deadline", "calls_in_progress_at_injection", "caller_cancelled_after_injection", "failure_before_registration", "registry_history.overlap", "registry_history.churn", "registry_history.both", "command_after_report_raised_other_than_ezsp_error", "sched.batch", "sched.reorder", "sched.join"]
 
@@ -387,6 +387,12 @@ def run_one(workload, kind, code, at, tape, sched, detail, dry=False, faulty=Fal
             if kind in ("error", "rstack", "lost", "eof"):
                 detected_by = t_inj + 0.01
                 # the frame cannot be delivered if the host had already closed the transport
+                if faulty and kind in ("error", "rstack") and not any(tt >= t_inj - 1e-9 and fr[0] == kind and fr[1] == code for (tt, fr) in rig.mon.rx_frames):
+                    # faulty-line scenario only: the NCP failed in the middle of sending a frame; the host holds the head of that frame and the
+                    # ERROR / RSTACK frame arrives glued to it, i.e. as one corrupt frame (answered with a NAK). The failure frame never reached
+                    # the host intact, so there is nothing it could report yet (a line fault on top of the failure is outside the statement)
+                    detected_by = None
+                    probe("failure_frame_destroyed_by_line")
             elif kind == "silent":
                 # a DATA frame written after the silence began that was transmitted ACK_TIMEOUTS times
                 cnt = {}
@@ -412,7 +418,7 @@ def run_one(workload, kind, code, at, tape, sched, detail, dry=False, faulty=Fal
                 # accepted alternative for a silent NCP during a reset handshake: handled below; for the other kinds: violation
                 extra = f"; loop exception handler saw {rig.loop.exceptions[:2]}" if rig.loop.exceptions else ""
                 viol.append(("C10.report", "not-reported", f"{tag}: the application never received a controller-reset request{extra}"))
-            if kind == "silent" and detected_by is None:
+            if kind == "silent" and detected_by is None:  # (the destroyed-frame case above concerns the other kinds)
                 # no DATA frame could exhaust its retries: only legitimate while a reset handshake kept EZSP stopped; the reset call must then time out
                 rc = [c for c in calls if c["name"] in ("reset", "startup_reset")]
                 timed_out = [c for c in rc if c["outcome"] and c["outcome"][0] == "raised" and isinstance(c["outcome"][1], TimeoutError)]
